@@ -97,6 +97,17 @@ def run(ctx):
                    val.mono in ('dec', 'const') and val.mono == 'dec',
                    'for formal charge %+d the group charge never increases with pH '
                    '(monotonicity %s)' % (q, val.mono), gmod, fn, detail=text)
+            # ... also in floating point: a composition of monotone steps in which
+            # the pH enters once is monotone after rounding as well, whereas a
+            # quotient whose numerator and denominator both move with the pH
+            # (r/(1+r)) may go up by one unit in the last place
+            n_ph = sum(1 for n in ast.walk(expr) if isinstance(n, ast.Name) and n.id == 'ph')
+            if q > 0:
+                ctx.ob('C09.R1', 'curve:%s:pH-enters-once' % tag, n_ph == 1,
+                       'the pH occurs once in the expression of the %s charge (%d occurrences): with '
+                       'several, rounding makes the charge increase between neighbouring pH values '
+                       '(N+ 16 E of 3SGB-subset: 0.9960978675159623 at pH 5.593, ...625 at the next '
+                       'representable pH)' % (tag, n_ph), gmod, fn, detail=text)
             # half point: pH := pK
             pk_node = ast.parse(want_attr[tag], mode='eval').body
             half = _Replace('ph', pk_node).visit(clone(expr))
@@ -315,11 +326,26 @@ def run(ctx):
         # start: midpoint of the window, window ends as bracket
         starts = [s for s in walk_no_nested(gpi) if isinstance(s, ast.Assign)
                   and isinstance(s.value, ast.Tuple) and len(s.value.elts) == 3]
-        st_ok = len(starts) == 1 and [norm(e).replace(' ', '') for e in starts[0].value.elts] == \
-            ['(grid[0]+grid[1])/2', 'grid[0]', 'grid[1]']
+        gcan = canon(gpi)
+        gname = next((a.arg for a in gpi.args.args if a.arg not in ('self', 'conformation')), 'grid')
+        elts = [gcan.text(e).replace(' ', '') for e in starts[0].value.elts] if len(starts) == 1 else []
+        ends = ('%s[0]' % gname, '%s[1]' % gname)
+        lows = {'min(%s,%s)' % ends, 'min(%s,%s)' % ends[::-1]}
+        highs = {'max(%s,%s)' % ends, 'max(%s,%s)' % ends[::-1]}
+        mids = {'(%s+%s)/2' % (l, h) for l in lows for h in highs} | \
+            {'(%s+%s)/2' % (h, l) for l in lows for h in highs} | \
+            {'(%s+%s)/2' % ends, '(%s+%s)/2' % ends[::-1]}
+        st_ok = len(elts) == 3 and elts[0] in mids and \
+            ((elts[1] in lows and elts[2] in highs) or (elts[1], elts[2]) == ends)
         ctx.ob('C09.R4', 'bisection:start', st_ok,
                'the search starts at the middle of the window with the window as bracket', mc,
                starts[0] if starts else gpi)
+        # the stop test is `precision < upper - lower`: a window given from high to
+        # low pH (as grids may be) must be put in order first, or the search stops
+        # at once and reports the midpoint as pI
+        ctx.ob('C09.R4', 'bisection:bracket-ordered', len(elts) == 3 and elts[1] in lows and elts[2] in highs,
+               'the bracket handed to the bisection is (min, max) of the two window ends (found %s)'
+               % elts[1:], mc, starts[0] if starts else gpi)
     ctx.need('C09.R4', 4)
     ctx.assume('that the reported pI is within the stated precision of a root is numeric and '
                'not decided; overflow of 10**e for |e| > 308 is not modelled')
